@@ -47,12 +47,6 @@ import (
 	"pgregory.net/rapid"
 )
 
-// Known-finding fingerprints.
-const (
-	fpChecksumCursor = "C04:checksum-cursor"
-	fpAssociateMerge = "C04:associate-merge"
-)
-
 // store is anything objects can be put into.
 type store struct {
 	put  func(*object.Object) error
@@ -216,6 +210,16 @@ func diffItems(exp, got []refsearch.Item, cmpAttrs bool) string {
 	return ""
 }
 
+// openC03 reports whether q has the shape of an OPEN single-shard (C03) finding.
+func openC03(view []refsearch.Obj, q refsearch.Query) bool {
+	for _, cls := range searchgen.C03Classes(view, q) {
+		if ev.IsOpen("C03", cls) {
+			return true
+		}
+	}
+	return false
+}
+
 // drawQuery draws a query for C04: primary attribute cycles over all kinds,
 // biased to match many objects; queries of C03 finding classes are redrawn.
 func drawQuery(t *rapid.T, rec *ev.Recorder, view []refsearch.Obj, lbl string, wantAttrs bool) (refsearch.Query, string) {
@@ -226,7 +230,7 @@ func drawQuery(t *rapid.T, rec *ev.Recorder, view []refsearch.Obj, lbl string, w
 			q = searchgen.GenQuery(view, searchgen.QueryOpts{Primary: kind, WantAttrs: wantAttrs || rapid.IntRange(0, 9).Draw(t, lbl+"-attrs") < 8,
 				MaxFilters: 3, Wide: true}).Draw(t, lbl)
 		}
-		if cls := searchgen.C03Classes(view, q); len(cls) > 0 && try < 20 {
+		if openC03(view, q) && try < 20 {
 			rec.Excluded(1)
 			continue
 		}
@@ -241,26 +245,6 @@ func drawQuery(t *rapid.T, rec *ev.Recorder, view []refsearch.Obj, lbl string, w
 		}
 		return q, kind
 	}
-}
-
-func classesC04(q refsearch.Query, attrs []string, multiPage bool, holders int) []string {
-	if len(q.Filters) == 0 || len(attrs) == 0 || holders < 2 {
-		return nil
-	}
-	qq := q
-	qq.Attrs = attrs
-	if refsearch.IDOrdered(qq) {
-		return nil
-	}
-	switch attrs[0] {
-	case refsearch.KChecksum:
-		if multiPage {
-			return []string{fpChecksumCursor}
-		}
-	case refsearch.KAssociate:
-		return []string{fpAssociateMerge}
-	}
-	return nil
 }
 
 // reference returns the complete result of q over the union metabase in one page.
@@ -348,7 +332,7 @@ func (m *mergedRun) run(t *rapid.T, rec *ev.Recorder) {
 		f, attrs, stripped := m.search(q)
 		qe := q
 		qe.Attrs = attrs
-		if len(searchgen.C03Classes(m.view, qe)) > 0 {
+		if openC03(m.view, qe) {
 			// the effective (forced) attributes put the query into a single-shard finding class
 			rec.Excluded(1)
 			continue
@@ -406,20 +390,8 @@ func (m *mergedRun) run(t *rapid.T, rec *ev.Recorder) {
 			if nontrivial && rec.WantSample() {
 				rec.Sample(map[string]any{"reach": m.name, "corpus": m.corpus, "holders": m.asg, "query": q, "page": p, "matches": len(ref)})
 			}
-			known := func() bool {
-				for _, cls := range classesC04(q, attrs, multiPage, m.k) {
-					if rec.Known(cls) {
-						rec.Label("known-" + cls)
-						return true
-					}
-				}
-				return false
-			}
 			got, pages, perr := paginate(f, q, attrs, uint16(p), len(ref)+3)
 			if perr != nil {
-				if known() {
-					continue
-				}
 				what := "search failed"
 				if perr.prep {
 					what = "cursor returned by the node was NOT ACCEPTED by PreprocessSearchQuery"
@@ -428,9 +400,6 @@ func (m *mergedRun) run(t *rapid.T, rec *ev.Recorder) {
 					m.name, what, perr.page, perr.cursor, p, perr.err, q, attrs, asgJS, m.cjs, fmtItems(ref), fmtItems(got))
 			}
 			if d := diffItems(ref, got, !stripped); d != "" {
-				if known() {
-					continue
-				}
 				t.Fatalf("[%s] merged listing differs from the search over the union: %s\nquery: %s (effective attrs %q)\npage size %d (%d pages), %d holders\nholders: %s\ncorpus: %s\nunion result:%s\nmerged:%s",
 					m.name, d, q, attrs, p, pages, m.k, asgJS, m.cjs, fmtItems(ref), fmtItems(got))
 			}
@@ -634,6 +603,10 @@ func TestC04MergePure(t *testing.T) {
 			if len(q.Filters) > 0 && len(q.Attrs) == 0 {
 				q.Attrs = []string{q.Filters[0].Key}
 			}
+			if openC03(view, q) {
+				rec.Excluded(1)
+				continue
+			}
 			union := refsearch.Search(view, q)
 			nodes := make([]*simNode, k)
 			for h := range nodes {
@@ -681,19 +654,7 @@ func TestC04MergePure(t *testing.T) {
 				labels = append(labels, "multi-page")
 			}
 			rec.Case(hm >= 2 && dup >= 1 && multiPage, fmt.Sprintf("pure|%s|%s|%s|%d", cjs, asgJS, q, p), labels...)
-			known := func() bool {
-				for _, cls := range classesC04(q, q.Attrs, multiPage, k) {
-					if rec.Known(cls) {
-						rec.Label("known-" + cls)
-						return true
-					}
-				}
-				return false
-			}
 			fail := func(format string, a ...any) {
-				if known() {
-					return
-				}
 				t.Fatalf("[merge-pure] "+format+"\nquery: %s\npage %d, nodes %s\ncorpus: %s\nunion:%s", append(a, q, p, asgJS, cjs, fmtItems(union))...)
 			}
 			var cursor []byte
